@@ -2,8 +2,15 @@ package main
 
 import (
 	"bytes"
+	"reflect"
 	"strconv"
+
+	"github.com/bytedance/sonic/decoder"
+	"github.com/bytedance/sonic/encoder"
 )
+
+func encoderPretouchMany(l []reflect.Type) error { return encoder.PretouchMany(l) }
+func decoderPretouchMany(l []reflect.Type) error { return decoder.PretouchMany(l) }
 
 type bytesBuffer struct{ bytes.Buffer }
 
